@@ -127,23 +127,32 @@ def dedupNat : List Nat → List Nat
   | [] => []
   | x :: xs => x :: (dedupNat xs).filter (· != x)
 
+/-- `check_chip_count`: inner barrel exactly one chip; outer barrel the configured count (if any) -/
+def countBad (cfg : AlpideCfg) (barrel : Barrel) (d : LaneDec) : Bool :=
+  match barrel with
+  | .inner => d.chips.length != 1
+  | _ => match cfg.chipCountOb with | some n => d.chips.length != n | none => false
+
+/-- `check_chip_id_order` (evaluated only when the count passes): inner barrel chip id = lane;
+    outer barrel one of the configured orders (if any) -/
+def orderBad (cfg : AlpideCfg) (barrel : Barrel) (laneNumber : Nat) (d : LaneDec) : Bool :=
+  match barrel with
+  | .inner => (d.chips.map (·.1)).head? != some laneNumber
+  | _ => match cfg.chipOrdersOb with | some os => !(os.contains (d.chips.map (·.1))) | none => false
+
+/-- the lane's error codes in `do_lane_alpide_checks` order: "BC" = bunch counter set twice for
+    a chip id, E9003 = no chip at all or more than one distinct bunch counter, E9004, E9005 -/
+def laneCodes (cfg : AlpideCfg) (barrel : Barrel) (laneNumber : Nat) (d : LaneDec) : List String :=
+  (if d.bcErr then ["BC"] else []) ++
+  (if d.chips.isEmpty || (dedupNat (d.chips.map (·.2))).length > 1 then ["E9003"] else []) ++
+  (if countBad cfg barrel d then ["E9004"] else if orderBad cfg barrel laneNumber d then ["E9005"] else [])
+
 /-- `analyze_alpide_frame` + `do_lane_alpide_checks` for one lane -/
 def laneVerdict (cfg : AlpideCfg) (barrel : Barrel) (laneNumber : Nat) (d : LaneDec) :
     Except PanicSite LaneVerdict :=
   if d.fatal then .ok .fatal else
-  let bcs := dedupNat (d.chips.map (·.2))
-  -- check_bunch_counters: no chip at all, or more than one distinct bunch counter
-  let e9003 : List String := if d.chips.isEmpty || bcs.length > 1 then ["E9003"] else []
-  let ids := d.chips.map (·.1)
-  let countBad : Bool := match barrel with
-    | .inner => ids.length != 1
-    | _ => match cfg.chipCountOb with | some n => ids.length != n | none => false
-  let orderBad : Bool := match barrel with
-    | .inner => ids.head? != some laneNumber
-    | _ => match cfg.chipOrdersOb with | some os => !(os.contains ids) | none => false
-  let codes := (if d.bcErr then ["BC"] else []) ++ e9003 ++
-    (if countBad then ["E9004"] else if orderBad then ["E9005"] else [])
-  if codes.isEmpty then .ok (.valid (bcs.headD 0)) else .ok (.error codes)
+  let codes := laneCodes cfg barrel laneNumber d
+  if codes.isEmpty then .ok (.valid ((dedupNat (d.chips.map (·.2))).headD 0)) else .ok (.error codes)
 
 /-- lane data of one readout frame: (data word ID, concatenated 9-byte chunks) in order of first
     appearance -/
